@@ -363,6 +363,33 @@ theorem pooled_pass_template_locks (W : TxAbs → Prop) (pol : Policy) (maturity
     rw [e1, e2, c12_isFinalized_eq]; exact l7
   · rw [c12_seqLocksOk_eq]; exact l6
 
+/-- the free-relay rule: a NEW transaction paying less than the relay fee for its size is only admitted when
+priority relay is disabled or its priority (Σ amount·age / discounted size, `mining.CalcPriority`) exceeds
+`MinHighPriority`, and only if the rate limiter lets it pass; it is never admitted at or above the
+free-area size -/
+theorem free_relay_rule (pol : Policy) (c : Chain) (s : Pool) (t : TxAbs) (rl rdo : Bool) (cs : List TxAbs)
+    (h : checkAccept pol c s t true rl rdo = .ok cs) (hfee : t.fee < minRelayFeeFor t.vsize pol.minRelayFee) :
+    (pol.disablePriority = true ∨ priorityHigh pol c t = true) ∧ pol.freeRelay = true ∧
+    t.vsize < pol.blockPrioritySize - 1000 := by
+  have hf := (checkAccept_ok_inv h).fee
+  unfold relayFeeMet at hf
+  simp only at hf
+  split at hf
+  · cases hf
+  · rename_i h1
+    split at hf
+    · omega
+    · split at hf
+      · rename_i h3; simp at h3
+      · split at hf
+        · cases hf
+        · rename_i h4
+          refine ⟨?_, hf, by omega⟩
+          simp only [Bool.true_and, Bool.and_eq_true, Bool.not_eq_true', not_and, Bool.not_eq_false] at h4
+          by_cases hd : pol.disablePriority = true
+          · exact Or.inl hd
+          · exact Or.inr (h4 (by simpa using hd))
+
 /-! ### policy arithmetic -/
 
 /-- `GetDustThreshold` reproduces the well-known thresholds (times minRelay/1000): P2PKH 546, P2SH 540,
